@@ -50,9 +50,9 @@ end GrVerif.Pos
 namespace GrVerif.Pos
 open GrVerif.Seg
 
-theorem place_scale (sl : Seg.Slot) (k : Rat) (hk : 0 < k) (base : P) (cm : Rat) :
-    place sl k (scaleP k base) (k * cm) =
-      (scaleP k (place sl 1 base cm).1, scaleP k (place sl 1 base cm).2.1, k * (place sl 1 base cm).2.2) := by
+theorem place_scale (sl : Seg.Slot) (k : Rat) (hk : 0 < k) (base : P) (cm : Rat) (rtl : Bool) :
+    place sl k (scaleP k base) (k * cm) rtl =
+      (scaleP k (place sl 1 base cm rtl).1, scaleP k (place sl 1 base cm rtl).2.1, k * (place sl 1 base cm rtl).2.2) := by
   unfold place
   cases hp : sl.parent with
   | none =>
@@ -61,20 +61,20 @@ theorem place_scale (sl : Seg.Slot) (k : Rat) (hk : 0 < k) (base : P) (cm : Rat)
   | some q =>
     simp only [scaleP, P.add]
     -- the two comparisons are invariant under scaling
-    have e0 : (k * base.1 + k * ↑sl.shiftX + k * (↑sl.attX - ↑sl.withX) : Rat) = k * (base.1 + 1 * ↑sl.shiftX + 1 * (↑sl.attX - ↑sl.withX)) := by grind
-    have c1 : (k * base.1 + k * ↑sl.shiftX + k * (↑sl.attX - ↑sl.withX) < 0) ↔ (base.1 + 1 * ↑sl.shiftX + 1 * (↑sl.attX - ↑sl.withX) < 0) := by
+    have e0 : (k * base.1 + k * ↑(sl.shiftDir rtl) + k * (↑sl.attX - ↑sl.withX) : Rat) = k * (base.1 + 1 * ↑(sl.shiftDir rtl) + 1 * (↑sl.attX - ↑sl.withX)) := by grind
+    have c1 : (k * base.1 + k * ↑(sl.shiftDir rtl) + k * (↑sl.attX - ↑sl.withX) < 0) ↔ (base.1 + 1 * ↑(sl.shiftDir rtl) + 1 * (↑sl.attX - ↑sl.withX) < 0) := by
       rw [e0]
-      have := lt_scale (a := base.1 + 1 * ↑sl.shiftX + 1 * (↑sl.attX - ↑sl.withX)) (b := 0) hk
+      have := lt_scale (a := base.1 + 1 * ↑(sl.shiftDir rtl) + 1 * (↑sl.attX - ↑sl.withX)) (b := 0) hk
       simpa using this
-    have c2 : (k * base.1 + k * ↑sl.shiftX + k * (↑sl.attX - ↑sl.withX) < k * cm) ↔ (base.1 + 1 * ↑sl.shiftX + 1 * (↑sl.attX - ↑sl.withX) < cm) := by
+    have c2 : (k * base.1 + k * ↑(sl.shiftDir rtl) + k * (↑sl.attX - ↑sl.withX) < k * cm) ↔ (base.1 + 1 * ↑(sl.shiftDir rtl) + 1 * (↑sl.attX - ↑sl.withX) < cm) := by
       rw [e0]; exact lt_scale hk
     by_cases ha : sl.advX ≥ 1
-    · by_cases hc : (base.1 + 1 * ↑sl.shiftX + 1 * (↑sl.attX - ↑sl.withX) < cm)
+    · by_cases hc : (base.1 + 1 * ↑(sl.shiftDir rtl) + 1 * (↑sl.attX - ↑sl.withX) < cm)
       · simp only [ha, true_or, true_and, if_true, c2, hc]
         refine Prod.ext ?_ (Prod.ext ?_ ?_) <;> simp only [] <;> (try (refine Prod.ext ?_ ?_ <;> simp only [])) <;> grind
       · simp only [ha, true_or, true_and, if_true, c2, hc, if_false]
         refine Prod.ext ?_ (Prod.ext ?_ ?_) <;> simp only [] <;> (try (refine Prod.ext ?_ ?_ <;> simp only [])) <;> grind
-    · by_cases hc : ((base.1 + 1 * ↑sl.shiftX + 1 * (↑sl.attX - ↑sl.withX) < 0) ∧ base.1 + 1 * ↑sl.shiftX + 1 * (↑sl.attX - ↑sl.withX) < cm)
+    · by_cases hc : ((base.1 + 1 * ↑(sl.shiftDir rtl) + 1 * (↑sl.attX - ↑sl.withX) < 0) ∧ base.1 + 1 * ↑(sl.shiftDir rtl) + 1 * (↑sl.attX - ↑sl.withX) < cm)
       · simp only [ha, false_or, if_false, c1, c2, hc, and_self, if_true]
         refine Prod.ext ?_ (Prod.ext ?_ ?_) <;> simp only [] <;> (try (refine Prod.ext ?_ ?_ <;> simp only [])) <;> grind
       · simp only [ha, false_or, if_false, c1, c2, hc]
@@ -149,9 +149,9 @@ theorem siblingStage_scale (seg : Seg) (k : Rat) (hk : 0 < k) (sl : Seg.Slot) (s
 
 /-- **C15, the core.** Final positioning with a font of scale `k > 0` gives exactly `k` times what positioning in design
 units gives: every origin, the running cluster minimum and the returned advance point. -/
-theorem finalise_scale (seg : Seg) (k : Rat) (hk : 0 < k) : ∀ (fuel s : Nat) (base : P) (st : St),
-    finalise seg k fuel s (scaleP k base) (scaleSt k st) =
-      (scaleP k (finalise seg 1 fuel s base st).1, scaleSt k (finalise seg 1 fuel s base st).2) := by
+theorem finalise_scale (seg : Seg) (k : Rat) (hk : 0 < k) (rtl : Bool) : ∀ (fuel s : Nat) (base : P) (st : St),
+    finalise seg k rtl fuel s (scaleP k base) (scaleSt k st) =
+      (scaleP k (finalise seg 1 rtl fuel s base st).1, scaleSt k (finalise seg 1 rtl fuel s base st).2) := by
   intro fuel
   induction fuel with
   | zero => intro s base st; simp [finalise, scaleP]
@@ -159,26 +159,26 @@ theorem finalise_scale (seg : Seg) (k : Rat) (hk : 0 < k) : ∀ (fuel s : Nat) (
     intro s base st
     unfold finalise
     simp only []
-    have hpl := place_scale (seg.get s) k hk base st.clusterMin
+    have hpl := place_scale (seg.get s) k hk base st.clusterMin rtl
     have hcm : (scaleSt k st).clusterMin = k * st.clusterMin := rfl
     rw [hcm, hpl]
     simp only []
-    have hst : ({ scaleSt k st with clusterMin := k * (place (seg.get s) 1 base st.clusterMin).2.2 } : St).setPos s
-        (scaleP k (place (seg.get s) 1 base st.clusterMin).2.1) =
-        scaleSt k (({ st with clusterMin := (place (seg.get s) 1 base st.clusterMin).2.2 } : St).setPos s (place (seg.get s) 1 base st.clusterMin).2.1) := by
+    have hst : ({ scaleSt k st with clusterMin := k * (place (seg.get s) 1 base st.clusterMin rtl).2.2 } : St).setPos s
+        (scaleP k (place (seg.get s) 1 base st.clusterMin rtl).2.1) =
+        scaleSt k (({ st with clusterMin := (place (seg.get s) 1 base st.clusterMin rtl).2.2 } : St).setPos s (place (seg.get s) 1 base st.clusterMin rtl).2.1) := by
       rw [scaleSt_cm, scaleSt_setPos]
     rw [hst]
-    rw [childStage_scale seg k hk (seg.get s) s _ _ _ _ (fun c b t => finalise seg 1 f c b t) (fun c b t => ih c b t)]
-    rw [siblingStage_scale seg k hk (seg.get s) s base _ _ (fun c b t => finalise seg 1 f c b t) (fun c b t => ih c b t)]
+    rw [childStage_scale seg k hk (seg.get s) s _ _ _ _ (fun c b t => finalise seg 1 rtl f c b t) (fun c b t => ih c b t)]
+    rw [siblingStage_scale seg k hk (seg.get s) s base _ _ (fun c b t => finalise seg 1 rtl f c b t) (fun c b t => ih c b t)]
     exact adjustCluster_scale seg k hk _ s base _ _
 
-theorem positionFold_scale (seg : Seg) (k : Rat) (hk : 0 < k) : ∀ (l : List Nat) (acc : P × St),
+theorem positionFold_scale (seg : Seg) (k : Rat) (hk : 0 < k) (rtl : Bool) : ∀ (l : List Nat) (acc : P × St),
     l.foldl (fun (acc : P × St) s =>
-      if (seg.get s).parent.isNone then finalise seg k 101 s acc.1 { acc.2 with clusterMin := acc.1.1 } else acc) (scaleP k acc.1, scaleSt k acc.2) =
+      if (seg.get s).parent.isNone then finalise seg k rtl 101 s acc.1 { acc.2 with clusterMin := acc.1.1 } else acc) (scaleP k acc.1, scaleSt k acc.2) =
     (scaleP k (l.foldl (fun (acc : P × St) s =>
-      if (seg.get s).parent.isNone then finalise seg 1 101 s acc.1 { acc.2 with clusterMin := acc.1.1 } else acc) acc).1,
+      if (seg.get s).parent.isNone then finalise seg 1 rtl 101 s acc.1 { acc.2 with clusterMin := acc.1.1 } else acc) acc).1,
      scaleSt k (l.foldl (fun (acc : P × St) s =>
-      if (seg.get s).parent.isNone then finalise seg 1 101 s acc.1 { acc.2 with clusterMin := acc.1.1 } else acc) acc).2) := by
+      if (seg.get s).parent.isNone then finalise seg 1 rtl 101 s acc.1 { acc.2 with clusterMin := acc.1.1 } else acc) acc).2) := by
   intro l
   induction l with
   | nil => intro acc; rfl
@@ -188,20 +188,20 @@ theorem positionFold_scale (seg : Seg) (k : Rat) (hk : 0 < k) : ∀ (l : List Na
     by_cases hb : (seg.get s).parent.isNone = true
     · simp only [hb, if_true]
       have e : ({ scaleSt k acc.2 with clusterMin := (scaleP k acc.1).1 } : St) = scaleSt k { acc.2 with clusterMin := acc.1.1 } := rfl
-      rw [e, finalise_scale seg k hk]
+      rw [e, finalise_scale seg k hk rtl]
       exact ih _
     · simp only [hb, if_false]
       exact ih acc
 
 /-- **C15.** The whole run: with a font of scale `k > 0` every slot origin and the run's advance are `k` times the
 design-unit values. -/
-theorem positionSlots_scale (seg : Seg) (k : Rat) (hk : 0 < k) (l : List Nat) :
-    positionSlots seg k l = (scaleP k (positionSlots seg 1 l).1, scaleSt k (positionSlots seg 1 l).2) := by
+theorem positionSlots_scale (seg : Seg) (k : Rat) (hk : 0 < k) (l : List Nat) (rtl : Bool := false) :
+    positionSlots seg k l rtl = (scaleP k (positionSlots seg 1 l rtl).1, scaleSt k (positionSlots seg 1 l rtl).2) := by
   unfold positionSlots
   have h0 : (((0, 0) : P), ({ pos := Array.replicate seg.slots.size (0, 0), clusterMin := 0 } : St)) =
       (scaleP k ((0, 0) : P), scaleSt k { pos := Array.replicate seg.slots.size (0, 0), clusterMin := 0 }) := by
     simp [scaleP, scaleSt]
-  have := positionFold_scale seg k hk l (((0, 0) : P), ({ pos := Array.replicate seg.slots.size (0, 0), clusterMin := 0 } : St))
+  have := positionFold_scale seg k hk rtl (if rtl then l.reverse else l) (((0, 0) : P), ({ pos := Array.replicate seg.slots.size (0, 0), clusterMin := 0 } : St))
   rw [← h0] at this
   exact this
 
